@@ -33,27 +33,29 @@ def stripPrefix? : List Char → List Char → Option (List Char)
   | _ :: _, [] => none
   | p :: ps, c :: cs => if p = c then stripPrefix? ps cs else none
 
-/-- first pair (in argument order) whose old string starts `s` -/
-def firstMatch : List (List Char × List Char) → List Char → Option (List Char × List Char)
+/-- first pair (in argument order) whose old string starts `s`: its replacement and the number of
+    characters it covers -/
+def firstMatch : List (List Char × List Char) → List Char → Option (List Char × Nat)
   | [], _ => none
   | (old, new) :: ps, s =>
     if old.isEmpty then firstMatch ps s
     else match stripPrefix? old s with
-      | some rest => some (new, rest)
+      | some _ => some (new, old.length)
       | none => firstMatch ps s
 
 /-- `strings.NewReplacer(pairs…).Replace`: left to right, non-overlapping, earlier pairs win.
-    (Pairs with an empty old string are not used by the code and are ignored.) -/
-def replaceAll (pairs : List (List Char × List Char)) (s : List Char) : List Char :=
-  go s.length s
-where
-  go : Nat → List Char → List Char
-  | 0, s => s
+    (Pairs with an empty old string are not used by the code and are ignored.)
+    The first argument counts the characters of a match still to be passed over. -/
+def replaceFrom (pairs : List (List Char × List Char)) : Nat → List Char → List Char
   | _, [] => []
-  | fuel + 1, c :: cs =>
+  | skip + 1, _ :: cs => replaceFrom pairs skip cs
+  | 0, c :: cs =>
     match firstMatch pairs (c :: cs) with
-    | some (new, rest) => new ++ go fuel rest
-    | none => c :: go fuel cs
+    | some (new, n) => new ++ replaceFrom pairs (n - 1) cs
+    | none => c :: replaceFrom pairs 0 cs
+
+def replaceAll (pairs : List (List Char × List Char)) (s : List Char) : List Char :=
+  replaceFrom pairs 0 s
 
 /-- `bufio.Reader.ReadString('\n')` chunks: every line keeps its terminator -/
 def splitLines (s : List Char) : List (List Char) :=
@@ -101,51 +103,49 @@ def hexVal? (c : Char) : Option Nat :=
 def decVal? (c : Char) : Option Nat :=
   if '0' ≤ c ∧ c ≤ '9' then some (c.toNat - '0'.toNat) else none
 
-/-- read digits up to ';' -/
-def readNum (digit : Char → Option Nat) (base : Nat) : List Char → Nat → Bool → Option (Nat × List Char)
+/-- read digits up to ';': the value and the number of characters read (including ';') -/
+def readNum (digit : Char → Option Nat) (base : Nat) : List Char → Nat → Nat → Option (Nat × Nat)
   | [], _, _ => none
-  | c :: cs, acc, any =>
-    if c = ';' then (if any then some (acc, cs) else none)
+  | c :: cs, acc, len =>
+    if c = ';' then (if len > 0 then some (acc, len + 1) else none)
     else match digit c with
-      | some d => if acc > 0x110000 then none else readNum digit base cs (acc * base + d) true
+      | some d => if acc > 0x110000 then none else readNum digit base cs (acc * base + d) (len + 1)
       | none => none
 
-/-- an entity reference after '&' -/
-def readEntity (s : List Char) : Option (Char × List Char) :=
+def scalar? (n : Nat) : Option Char :=
+  if n < 0x110000 ∧ ¬ (0xD800 ≤ n ∧ n ≤ 0xDFFF) then some (Char.ofNat n) else none
+
+/-- an entity or character reference after '&': the character and how many characters it spans -/
+def readEntity (s : List Char) : Option (Char × Nat) :=
   match s with
-  | '#' :: 'x' :: r =>
-    (readNum hexVal? 16 r 0 false).bind fun (n, rest) =>
-      if n < 0x110000 ∧ ¬ (0xD800 ≤ n ∧ n ≤ 0xDFFF) then some (Char.ofNat n, rest) else none
-  | '#' :: r =>
-    (readNum decVal? 10 r 0 false).bind fun (n, rest) =>
-      if n < 0x110000 ∧ ¬ (0xD800 ≤ n ∧ n ≤ 0xDFFF) then some (Char.ofNat n, rest) else none
-  | 'l' :: 't' :: ';' :: r => some ('<', r)
-  | 'g' :: 't' :: ';' :: r => some ('>', r)
-  | 'a' :: 'm' :: 'p' :: ';' :: r => some ('&', r)
-  | 'a' :: 'p' :: 'o' :: 's' :: ';' :: r => some ('\'', r)
-  | 'q' :: 'u' :: 'o' :: 't' :: ';' :: r => some ('"', r)
+  | '#' :: 'x' :: r => (readNum hexVal? 16 r 0 0).bind fun (n, len) => (scalar? n).map fun c => (c, len + 2)
+  | '#' :: r => (readNum decVal? 10 r 0 0).bind fun (n, len) => (scalar? n).map fun c => (c, len + 1)
+  | 'l' :: 't' :: ';' :: _ => some ('<', 3)
+  | 'g' :: 't' :: ';' :: _ => some ('>', 3)
+  | 'a' :: 'm' :: 'p' :: ';' :: _ => some ('&', 4)
+  | 'a' :: 'p' :: 'o' :: 's' :: ';' :: _ => some ('\'', 5)
+  | 'q' :: 'u' :: 'o' :: 't' :: ';' :: _ => some ('"', 5)
   | _ => none
 
 /-- decode the character data of one element: entities resolved, raw CR / CRLF normalised to LF,
     raw '<' and an unknown or malformed entity rejected, every resulting character must be an
-    XML character -/
-def unescape (s : List Char) : Option (List Char) :=
-  go s.length s
-where
-  go : Nat → List Char → Option (List Char)
-  | 0, s => if s.isEmpty then some [] else none
+    XML character.  The first argument counts characters of a reference still to be passed over. -/
+def unescapeFrom : Nat → List Char → Option (List Char)
   | _, [] => some []
-  | fuel + 1, c :: cs =>
+  | skip + 1, _ :: cs => unescapeFrom skip cs
+  | 0, c :: cs =>
     if c = '<' then none
     else if c = '&' then
       match readEntity cs with
-      | some (ch, rest) => if inCharRange ch then (go fuel rest).map (ch :: ·) else none
+      | some (ch, n) => if inCharRange ch then (unescapeFrom n cs).map (ch :: ·) else none
       | none => none
     else if c = '\r' then
       match cs with
-      | '\n' :: rest => (go fuel rest).map ('\n' :: ·)
-      | _ => (go fuel cs).map ('\n' :: ·)
-    else if inCharRange c then (go fuel cs).map (c :: ·)
+      | '\n' :: _ => (unescapeFrom 1 cs).map ('\n' :: ·)
+      | _ => (unescapeFrom 0 cs).map ('\n' :: ·)
+    else if inCharRange c then (unescapeFrom 0 cs).map (c :: ·)
     else none
+
+def unescape (s : List Char) : Option (List Char) := unescapeFrom 0 s
 
 end TrackVerif.LT.Text
